@@ -26,6 +26,9 @@ type levelCfg struct {
 	Global int            `json:"global"`        // 1..6
 	Active bool           `json:"active"`        // per-package levels active
 	Pkg    map[string]int `json:"pkg,omitempty"` // directory -> level
+	// KeepPkg: Active/Pkg are those of the previous phase and are not set again at the
+	// barrier; only SetLogLevel(Global) is called
+	KeepPkg bool `json:"keep_pkg,omitempty"`
 }
 
 func (c levelCfg) enabled(pkg int, lvl int) bool {
@@ -259,6 +262,9 @@ func genScenario(cfg vlib.Cfg, n int, build string, family string) scenario {
 		total = r.Range(2000, 4000)
 	}
 
+	for s.DelayEach > 0 && total/s.DelayEach*s.DelayUs > 3000000 { // at most ~3 s of adapter delay per case
+		s.DelayEach *= 4
+	}
 	s.Tracers = r.Chance(2, 3)
 	s.Dense = r.Chance(1, 2)
 	if s.Family == "twin" {
@@ -299,6 +305,17 @@ func genScenario(cfg vlib.Cfg, n int, build string, family string) scenario {
 			left = 0
 		}
 		ph := phaseSpec{Cfg: randCfg(r, p == 0 && lowFirst), Ops: splitOps(r, share, s.Producers)}
+		if p > 0 && s.Family != "twin" && r.Chance(3, 5) {
+			// package levels stay active and untouched, only the global level changes:
+			// directories without a level of their own follow the new global level
+			if prev := s.Phases[p-1]; prev.Flip == nil && prev.Cfg.Active {
+				g := prev.Cfg.Global
+				for g == prev.Cfg.Global {
+					g = r.Range(1, 6)
+				}
+				ph.Cfg = levelCfg{Global: g, Active: true, Pkg: prev.Cfg.Pkg, KeepPkg: true}
+			}
+		}
 		if s.Family == "twin" && r.Chance(3, 4) {
 			ph.Cfg.Global = 1 // tracers exist only where trace level is in force
 		}
